@@ -113,7 +113,10 @@ PROPS = {
     },
     "C08": {
         "lean_modules": ["Props.Facts17"],
-        "groups": [{"name": "C08", "quick": 96, "thorough": 3000, "workers": 12}],
+        "groups": [{"name": "C08", "quick": 96, "thorough": 3000, "workers": 12},
+                   # what the fan-out calls concurrently (renderers, accessors), under the race detector
+                   {"name": "renderpar", "quick": 24, "thorough": 600, "workers": 4},
+                   {"name": "C17par", "quick": 16, "thorough": 400, "workers": 4}],
         "race": True,
         "level": "proof",
         "rule": "the UI worlds of C07 driven the way main.go drives the UI: one goroutine per key byte (30..90 navigation, selection, :open and :feed tokens, also failing :open and unknown commands), 1..3 pollers resizing every 0.3..0.6 ms (one run in three also to 1..5 columns / 2..3 rows and 200x70), simulator latencies of 0..8 ms drawn per request, in one run in three a latency bound redrawn every 0.1..1 ms from 0..30 ms, "
@@ -128,7 +131,11 @@ PROPS = {
     },
     "C09": {
         "lean_modules": ["Props.Gen09", "Props.GenT09"],
-        "groups": [{"name": "C02", "quick": 1200, "thorough": 40000, "workers": 12}],
+        # what a page lists after the reader moved about is what the interface model says it lists
+        "correspondence_is_failure": {"ui": True},
+        "groups": [{"name": "C02", "quick": 1200, "thorough": 40000, "workers": 12},
+                   # listings as the interface shows them: pages loaded in the background while the reader moves on
+                   {"name": "C07", "quick": 72, "thorough": 2000, "workers": 12}],
         "rule": "the same multi-host worlds as C02 (outboxes and reply collections mixing legitimate entries with other-actor activities, other-parent comments, foreign-host authors, missing ids/actors/reply targets, embedded vs referenced, failing fetches; actors and reply targets that are the owner's in another spelling (userinfo, fragment, scheme), under the same path on another host, on the same address under another port, a same-host document claiming the owner's id; actor / inReplyTo written as lists; entries that are no references or no activities at all: null, numbers, nested lists, bare notes; listings continued over several requests); "
                 "compared: per-position classification of every listed entry; predicates on the implementation's output: a listed activity's actor id equals the owner's id, a listed reply's parent id equals the post's id, authors share the post's host (the authority url.Parse reads out of the two ids); non-trivial = at least one child or ancestor is listed; distinct by op content",
         "trusted": ["as C02", "extract/go2lean14.go and Model/GoPub.lean (translation of the listing filters)"],
@@ -159,7 +166,9 @@ PROPS = {
         "lean_modules": ["Props.Facts04", "Props.Facts04b"],
         "groups": [{"name": "C04", "quick": 1200, "thorough": 30000, "workers": 8},
                    # redirect worlds (non-https hops, relative and cross-host Locations): what goes on the wire there
-                   {"name": "C03", "quick": 400, "thorough": 10000, "workers": 8}],
+                   {"name": "C03", "quick": 400, "thorough": 10000, "workers": 8},
+                   # every request sent while whole worlds are browsed (identifiers with fragments, relative references, redirects)
+                   {"name": "C02", "quick": 400, "thorough": 12000, "workers": 8}],
         "rule": "fetches of URLs with hostile paths and queries (raw and encoded CR/LF and LF alone, a whole second request encoded in path or query, spaces, %00, fragments, escaped delimiters %2F %3F %23 %25, broken escapes, non-ASCII, brackets and braces, dot segments, request targets of 1.5 kB to 280 kB), "
                 "userinfo of every shape (also carrying encoded CR/LF or a header name), upper-case scheme, non-https and look-alike schemes, scheme-less references, authorities spelled other ways (a name in other letter case or with a trailing dot, IPv6 literals in two spellings, with a zone, IPv4-mapped; the default port absent, written, empty, with a leading zero; a wrong port; IDN and percent-encoded names), "
                 "redirects to plaintext (absolute, scheme-relative, upper-case) and to Locations carrying CR/LF, userinfo or a tab, a plaintext canary listener; webfinger lookups with hostile account and domain parts (CR, LF, CR/LF raw and encoded, tabs, NUL, spaces, '#', '?', userinfo, unresolvable names, 4.8 kB accounts, the name / IPv6 / default-port hosts); "
@@ -258,8 +267,11 @@ PROPS = {
     "C18": {
         "lean_modules": ["Props.Gen18", "Props.GenT18"],
         "correspondence_is_failure": {"history": True, "feed": True},
+        "race": True,
         "groups": [{"name": "C18", "quick": 4000, "thorough": 100000},
-                   {"name": "C18x", "quick": 6, "thorough": 9, "workers": 1}],
+                   {"name": "C18x", "quick": 6, "thorough": 9, "workers": 1},
+                   # the feed of a page as the interface uses it: every access under the mutex of the interface (race detector on)
+                   {"name": "C08", "quick": 36, "thorough": 600, "workers": 12}],
         "rule": "random history sequences (add/back/forward, length 0..200) and feed sequences (create or create-list, then append/prepend/up/down/center, length 0..30) observed after every step "
                 "(IsEmpty, Current / Current, and Contains, IsParent, IsChild, Get over offsets -4..4); plus all history sequences up to the length bound and all feed sequences up to bound-2 (group C18x); "
                 "one case in four is structured: deep histories (20..520 pages, then runs of back/forward to and past both ends, new pages at the very start, jitter; every step observed), huge ones (runs of up to 4096 adds and 70 000 moves observed at the end of the run), the same one to three pages opened repeatedly; "
@@ -304,7 +316,9 @@ PROPS = {
         "lean_modules": ["Props.C13s", "Props.Gen15", "Props.GenT15"],
         "groups": [{"name": "render", "quick": 2500, "thorough": 60000},
                    # documents rendered from several goroutines at once
-                   {"name": "renderpar", "quick": 40, "thorough": 1500, "workers": 4}],
+                   {"name": "renderpar", "quick": 40, "thorough": 1500, "workers": 4},
+                   # one text under every media type, document after document in one process, through object.GetMarkup
+                   {"name": "C15m", "quick": 280, "thorough": 14000, "workers": 2}],
         "rule": "documents from grammars of HTML (inline styles, links, media, blockquotes, lists, headings, pre, hr, unknown tags, character-reference injections), Markdown, gemtext and plain text with URLs x sequences of 1..4 (one in eight: 5..14) widths (with repeats and returns to earlier widths; -3..250); the same Markup value is rendered at each width in order; "
                 "one case in 22 is a long history of 20..400 widths on one Markup (1 up to 20..220 and back in steps of 1..4, every width between two sizes there and back twice, jumps among a few sizes incl. 80/79/81/0/-1, a random walk, back to 80 after every other size), "
                 "one in 15 keeps two or three Markup values alive (different documents, or the same text under the same or another media type) and renders them alternately for 4..23 steps (op renderpair); every output is also compared with the same document rendered at that width on a value that was never rendered before; "
